@@ -29,7 +29,7 @@ PROPS = {
     "C04": {"families": ["safe_stmt", "unique_variables", "unique_names", "binding_body", "binding_head", "duplication_occurrences", "duplication_collect", "duplication_execute", "projection_good_split", "projection_rule", "api_optimize"], "oracle": "struct"},
     "C05": {"families": ["norm_replace_old_aggregates", "norm_remove_bounds", "norm_expand_comparisons", "norm_unpool", "norm_preprocess", "norm_exline", "norm_inline", "norm_none"], "oracle": "sem"},
     "C06": {"families": ["projection_good_split", "projection_rule", "projection_execute", "cleanup_execute", "symmetry_execute", "minmax_execute", "sumchains_execute", "api_optimize"], "oracle": "sem"},
-    "C07": {"families": ["unique_variables", "unique_names"], "oracle": "struct"},
+    "C07": {"families": ["unique_variables", "unique_names", "dep_names", "dep_domains", "dep_create_domain", "dep_chain", "unused_execute", "projection_execute", "duplication_execute", "symmetry_execute", "minmax_execute", "sumchains_execute", "api_optimize"], "oracle": "struct"},
     "C17": {"families": [], "oracle": "struct", "quick_cap": 150},
     "C20": {"families": ["dep_static", "dep_domains", "dep_create_domain", "dep_names", "dep_chain"], "oracle": "struct"},
     "C08": {"families": ["cleanup_mappings", "cleanup_superseeded", "cleanup_apply", "cleanup_execute_core", "cleanup_execute"], "oracle": "sem"},
